@@ -27,6 +27,9 @@ pub fn gen_main(args: &[String]) {
             wat += &format!("(func (export \"f{}\") (param i32) (result i32) (local i32)\n", i); for k in 0..reps { wat += &format!(" local.get 0 i32.const {} i32.add local.set 1\n", i * 131 + k); }
             if i % 5 == 0 { wat += " block local.get 1 br_if 0 nop end\n"; } if i % 11 == 0 { wat += " i32.const 0 i32.const 0 i32.const 0 memory.fill\n"; } wat += " local.get 1)\n"; }
         wat += ")"; if let Ok(b) = wat::parse_str(&wat) { inputs.push((format!("many-{}-{}", nf, pat), b)); } }
+    // one HUGE function (tens of thousands of instructions) next to small ones, and several large ones: work splitting must not depend on sizes
+    for (huge, others) in [(20000usize, 12usize), (9000, 3), (70000, 1)] { let mut wat = String::from("(module\n(func (export \"huge\") (result i32)\n"); for k in 0..huge { wat += &format!(" i32.const {} drop\n", k % 1000); } wat += " i32.const 1)\n";
+        for i in 0..others { wat += &format!("(func (export \"s{}\") (result i32) i32.const {})\n", i, i); } wat += ")"; if let Ok(b) = wat::parse_str(&wat) { inputs.push((format!("huge-function-{}-{}", huge, others), b)); } }
     // invalid bodies at several positions: the decision and the reported error must not depend on the schedule
     for bad in [vec![3usize], vec![0, 199], vec![57, 58, 59], vec![199]] { let mut wat = String::from("(module\n");
         for i in 0..200 { if bad.contains(&i) { wat += &format!("(func (result i32) i64.const {})\n", i); } else { wat += &format!("(func (result i32) i32.const {})\n", i); } } wat += ")";
